@@ -362,14 +362,21 @@ func (ex *Exec) load(p PtrV, st *State) Val {
 		panic(err)
 	}
 	var base Term
+	hst := st
+	if p.Kind == rootRef && ex.entryState != nil && (strings.HasPrefix(p.Ref.S, "g!") || strings.HasPrefix(p.Ref.S, "|g!")) {
+		// package-level variables keep their initial values (stores to them are rejected): read the entry heap,
+		// so that havocs caused by unspecified callees do not forget them
+		hst = ex.entryState
+		ex.vc.Assumptions["package-level variables are not modified after initialisation"] = true
+	}
 	switch p.Kind {
 	case rootRef:
 		if isStruct(p.RootTy) {
 			name, lt := fieldHeap(p.RootTy, path)
-			h := st.heap(name, ArraySort(sortOf(lt)))
+			h := hst.heap(name, ArraySort(sortOf(lt)))
 			base = Select(h, p.Ref)
 		} else {
-			h := st.heap(cellHeap(p.RootTy), ArraySort(sortOf(p.RootTy)))
+			h := hst.heap(cellHeap(p.RootTy), ArraySort(sortOf(p.RootTy)))
 			base = Select(h, p.Ref)
 		}
 	case rootElem:
@@ -426,6 +433,9 @@ func (ex *Exec) store(p PtrV, v Val, st *State) {
 		panic(err)
 	}
 	sv := ex.scalar(v)
+	if p.Kind == rootRef && (strings.HasPrefix(p.Ref.S, "g!") || strings.HasPrefix(p.Ref.S, "|g!")) {
+		panic(unsupported("store to a package-level variable"))
+	}
 	switch p.Kind {
 	case rootRef:
 		var name string
@@ -501,6 +511,14 @@ func (ex *Exec) scalar(v Val) Term {
 		}
 		if arr, ok := under(x.pointee()).(*types.Array); ok && ex.curState != nil && !isStruct(arr.Elem()) {
 			return ex.arrayBacking(x, arr, ex.curState)
+		}
+		if x.Kind != rootLocal && ex.curState != nil {
+			// an interior pointer handed to code we do not model (boxed into an interface, passed to a library
+			// function): an opaque non-nil reference; what is done through it must be stated by the callee's contract
+			r := ex.vc.fresh("iptr", SInt)
+			ex.vc.assume(And(Gt(r, IntLit(0)), Lt(r, ex.curState.top)))
+			ex.vc.Unmodelled["interior pointer ("+shortType(x.Ty)+") passed as an opaque value"] = true
+			return r
 		}
 		panic(unsupported("interior or local pointer used as a first-class value (%s)", shortType(x.Ty)))
 	case FuncV:
